@@ -120,6 +120,11 @@ def gen_root_cases(ctx):
                       relative=bool(rng.below(4)), ridge_epsilon=rng.choice([1e-6, 1e-3]),
                       seed=rng.next(), spread=rng.choice([30.0, 1e4]),
                       scale=rng.choice([1e-3, 1e-6, 1e3, 2.0 ** -10])))
+  # rank-deficient statistics with padding (ties between the null space and the padding eigenvalues)
+  for (d, cr, ps) in [x for x in combos if x[2] is not None and x[2] < x[0]][:(16 if quick else 80)]:
+    cases.append(dict(kind="root", d=d, cr=cr, ps=ps, p=rng.choice([1, 2, 4]), relative=bool(rng.below(2)),
+                      ridge_epsilon=rng.choice([1e-6, 1e-3]), seed=rng.next(), spread=30.0,
+                      null=rng.rint(1, 3)))
   # all-padding block: the packed root must be the zero matrix
   cases.append(dict(kind="root", d=5, cr=1, ps=0, p=2, relative=False, ridge_epsilon=1e-6,
                     seed=rng.next(), spread=1.0))
